@@ -1,7 +1,10 @@
 #!/bin/bash
 # Runs the repository's pinned test suite with the guard off.  /verif adds no
-# source hooks to /repo, so this is simply the unmodified tree.
+# source hooks to /repo, so this is simply the unmodified tree.  The suite runs
+# with the toolchain the repository pins (go1.25.0), not the one the checks use.
 . "$(dirname "$0")/env.sh"
+R=/root/go/pkg/mod/golang.org/toolchain@v0.0.1-go1.25.0.linux-amd64/bin/go
+[ -x "$R" ] && GO="$R"
 cd /repo
 rc=0
 for m in . ./cmd/protoc-gen-go-grpc ./gcp/observability ./interop/observability ./interop/xds ./security/advancedtls ./stats/opencensus; do
